@@ -36,6 +36,11 @@ Theorem C06_cleanup_preserves : forall rm mg t t', tree_okb t = true -> cleanup 
 Proof. exact cleanup_preserves. Qed.
 Print Assumptions C06_cleanup_preserves.
 
+Theorem C06_cleanup_post : forall rm mg t t', cleanup rm mg t = Ok t' ->
+  (rm = true -> no_empty_below t' = true) /\ (mg = true -> mergeable t' = false).
+Proof. exact cleanup_postcondition. Qed.
+Print Assumptions C06_cleanup_post.
+
 (* for every fuel: a returned result plays the same pulse and has the requested depth and balance *)
 Theorem C06_flatten_preserves_post : forall fuel d t t', tree_okb t = true -> flatten_and_balance fuel d t = Ok t' ->
   (pieces t' = pieces t /\ (duration t' == duration t)%Q)
